@@ -24,6 +24,16 @@ func Scenarios(thorough bool) map[string]*Scenario {
 	// three traffic steps: a jump from step one to step three is a real jump onto a step with a weight
 	m["Q02d"] = &Scenario{ID: "Q02d", Kind: "CloneSet", Style: "partition", Replicas: 3, Traffic: "ingress", Grace: 1,
 		Steps: []StepSpec{{Replicas: "1", Traffic: "20%"}, {Replicas: "2", Traffic: "50%"}, {Replicas: "3", Traffic: "80%"}}}
+	// traffic configured by a separate TrafficRouting custom resource referenced from the Rollout (Ingress / HTTPRoute)
+	m["Q20"] = &Scenario{ID: "Q20", Kind: "CloneSet", Style: "partition", Replicas: 2, Traffic: "ingress", TRCR: true, Grace: 1,
+		Steps: []StepSpec{{Replicas: "1"}, {Replicas: "2"}}}
+	m["Q21"] = &Scenario{ID: "Q21", Kind: "CloneSet", Style: "partition", Replicas: 2, Traffic: "gateway", TRCR: true, Grace: 1,
+		Steps: []StepSpec{{Replicas: "1"}, {Replicas: "2"}}}
+	// custom (Lua) provider: Istio VirtualService, configured in the Rollout (Q30) or through a TrafficRouting CR (Q22)
+	m["Q30"] = &Scenario{ID: "Q30", Kind: "CloneSet", Style: "partition", Replicas: 2, Traffic: "custom", Grace: 1,
+		Steps: []StepSpec{{Replicas: "1", Traffic: "20%"}, {Replicas: "100%"}}}
+	m["Q22"] = &Scenario{ID: "Q22", Kind: "CloneSet", Style: "partition", Replicas: 2, Traffic: "custom", TRCR: true, Grace: 1,
+		Steps: []StepSpec{{Replicas: "1"}, {Replicas: "2"}}}
 	// CloneSet partition + Gateway API HTTPRoute
 	m["Q03"] = &Scenario{ID: "Q03", Kind: "CloneSet", Style: "partition", Replicas: 3, Traffic: "gateway", Grace: 1,
 		Steps: []StepSpec{{Replicas: "1", Traffic: "20%"}, {Replicas: "100%"}}}
@@ -55,6 +65,9 @@ func Scenarios(thorough bool) map[string]*Scenario {
 	// Deployment partition style (the repository's advanced Deployment controller drives the ReplicaSets)
 	m["Q07"] = &Scenario{ID: "Q07", Kind: "Deployment", Style: "partition", Replicas: 3,
 		Steps: []StepSpec{{Replicas: "34%"}, {Replicas: "100%"}}}
+	// Deployment partition style with a mixed plan (percentage, then absolute, then percentage)
+	m["Q07m"] = &Scenario{ID: "Q07m", Kind: "Deployment", Style: "partition", Replicas: 4,
+		Steps: []StepSpec{{Replicas: "25%"}, {Replicas: "3"}, {Replicas: "100%"}}}
 	// Deployment blue-green + nginx Ingress
 	m["Q08"] = &Scenario{ID: "Q08", Kind: "Deployment", Style: "bluegreen", Replicas: 2, Traffic: "ingress", Grace: 1,
 		Steps: []StepSpec{{Replicas: "100%", Traffic: "0%"}, {Replicas: "100%", Traffic: "100%"}}}
@@ -99,17 +112,19 @@ func Plans(thorough bool) map[string]PropertyPlan {
 			FreeQueues: true, StateCap: capQ, Monitors: func(w *World, sc *Scenario) []Monitor { return []Monitor{StepMonitor{}} }},
 		"C11": {Scenarios: []string{"Q01", "Q01b", "Q01r", "Q05", "Q05r", "Q07", "Q08", "Q10"}, Actions: []string{"scaleUp", "scaleDown", "editPlanMore", "degrade", "jump(1)"}, MaxUser: u,
 			FreeQueues: true, StateCap: capQ, Monitors: func(w *World, sc *Scenario) []Monitor { return []Monitor{BatchStatusMonitor{}} }},
-		"C03": {Scenarios: []string{"Q02", "Q02d", "Q03", "Q05", "Q08"}, Actions: []string{"jump(2)", "jump(3)", "jump(1)", "editPlanMore", "scaleUp"}, MaxUser: u,
+		"C03": {Scenarios: []string{"Q02", "Q02d", "Q03", "Q05", "Q08", "Q30"}, Actions: []string{"jump(2)", "jump(3)", "jump(1)", "editPlanMore", "scaleUp"}, MaxUser: u,
 			FreeQueues: true, StateCap: capQ, Monitors: func(w *World, sc *Scenario) []Monitor { return []Monitor{TrafficOrderMonitor{}} }},
-		"C04": {Scenarios: []string{"Q02", "Q02c", "Q02s", "Q03", "Q05", "Q08"}, Actions: []string{"rollback", "release3", "disable", "deleteRollout", "jump(2)"}, MaxUser: u, Disturbances: []string{"crash"}, MaxDisturb: 1,
+		"C04": {Scenarios: []string{"Q02", "Q02c", "Q02s", "Q03", "Q05", "Q08", "Q30"}, Actions: []string{"rollback", "release3", "disable", "deleteRollout", "jump(2)"}, MaxUser: u, Disturbances: []string{"crash"}, MaxDisturb: 1,
 			FreeQueues: true, StateCap: capQ, Monitors: func(w *World, sc *Scenario) []Monitor { return []Monitor{VoidMonitor{}} }},
 		"C10": {Scenarios: []string{"Q02", "Q05", "Q08"}, Actions: []string{"rollback", "release3"}, MaxUser: 1, Disturbances: []string{"crash", "midcrash"}, MaxDisturb: 1,
 			FreeQueues: true, StateCap: capQ, Monitors: func(w *World, sc *Scenario) []Monitor { return []Monitor{RollbackOrderMonitor{}} }},
-		"C05": {Scenarios: []string{"Q02", "Q01b", "Q03", "Q05", "Q08", "Q10"}, Actions: []string{"rollback", "disable", "deleteRollout", "editPlanMore", "deleteCanary"}, MaxUser: u,
+		"C05": {Scenarios: []string{"Q02", "Q01b", "Q03", "Q05", "Q08", "Q10", "Q30"}, Actions: []string{"rollback", "disable", "deleteRollout", "editPlanMore", "deleteCanary"}, MaxUser: u,
 			FreeQueues: true, StateCap: capQ, Monitors: func(w *World, sc *Scenario) []Monitor { return []Monitor{&ExitMonitor{Base: CaptureBaseline(w, sc)}} }},
-		"C18": {Scenarios: []string{"Q02", "Q01b", "Q05"}, Actions: []string{"deleteRollout", "deleteWorkload"}, MaxUser: 2, Disturbances: []string{"crash", "midcrash", "error"}, MaxDisturb: 1,
-			FreeQueues: true, StateCap: capQ, Monitors: func(w *World, sc *Scenario) []Monitor { return []Monitor{FinalizerMonitor{}} }},
-		"C07": {Scenarios: []string{"Q01", "Q01b", "Q01c", "Q01r", "Q02", "Q03", "Q05", "Q05r", "Q07", "Q08", "Q10"}, Actions: nil, MaxUser: 0,
+		"C18": {Scenarios: []string{"Q02", "Q01b", "Q05", "Q20", "Q22", "Q30"}, Actions: []string{"deleteRollout", "deleteWorkload", "deleteTR"}, MaxUser: 2, Disturbances: []string{"crash", "midcrash", "error"}, MaxDisturb: 1,
+			FreeQueues: true, StateCap: capQ, Monitors: func(w *World, sc *Scenario) []Monitor {
+				return []Monitor{FinalizerMonitor{Base: CaptureBaseline(w, sc)}}
+			}},
+		"C07": {Scenarios: []string{"Q01", "Q01b", "Q01c", "Q01r", "Q02", "Q03", "Q05", "Q05r", "Q07", "Q07m", "Q08", "Q10"}, Actions: nil, MaxUser: 0,
 			FreeQueues: false, Liveness: true, StateCap: capQ, Monitors: func(w *World, sc *Scenario) []Monitor { return []Monitor{PanicMonitor{}} }},
 		"C06": {Scenarios: []string{"Q02", "Q01b", "Q08"}, Actions: nil, MaxUser: 0, Disturbances: []string{"crash", "midcrash", "error", "conflict"}, MaxDisturb: 1,
 			FreeQueues: true, StateCap: capQ, Relabel: true, LiveScenarios: []string{"Q01b"},
